@@ -101,7 +101,7 @@ def gen_case(rng, tier):
                 e, ids = edit(rng, ids)               # edit while attempts are in flight
                 evs.append(e)
             elif r < p_edit_inflight + p_fail * (1 - p_edit_inflight):
-                evs.append(rng.choice(["s", "r", "i", "x", "x", "s"]))
+                evs.append(rng.choice(["s", "r", "i", "x", "x", "s", "k"]))
                 if evs[-1] == "x":
                     pending_guess = rng.choice([0, 1])
             else:
